@@ -202,6 +202,10 @@ def run(ctx):
                                                             order_kinds=['outside', 'inside', 'inside', 'outside'],
                                                             kinds={'OrderBook': 3, 'Storage': 4, 'SimpleContract': 1}), 'c09mip_'))
     base = [sp for sp in specs if not sp['id'].endswith(('+ren', '+perm'))]
+    for i_, sp in enumerate(base):
+        # (plain assets only: what in-place renaming means for the internal node labels a structured asset derives is not defined anywhere)
+        if i_ % 2 == 0 and not any(a['kind'] in ('LinkedAsset', 'StructuredAsset', 'ScaledAsset') for a in sp['assets']):
+            sp['opts']['rename_in_place'] = True
     rens = [renamed(sp) for sp in base]
     perms = [permuted(sp) for sp in base]
     res = C.run_impl('portfolio', base + [r[0] for r in rens] + perms)
@@ -241,6 +245,13 @@ def run(ctx):
         if bad:
             ctx.violation('impl-violation', {'spec': vr, 'base_spec': sp, 'renaming': {'assets': fa, 'nodes': fn}, 'observed': bad,
                                              'expected': 'same problem, same optimum, same tables under the new labels'}, trigger={'what': 'renaming: ' + sorted(bad)[0]})
+        # ---- relabelling in place (the objects are kept, their names changed, a new portfolio built from them)
+        q = ob.get('renamed_in_place')
+        if isinstance(q, dict):
+            ctx.cov['impl_oracle_evaluations'] += 1
+            if q.get('solve') != ob.get('solve') or (q.get('solve') == 'optimal' and abs(q['value'] - ob['value']) > 1e-6 * (1 + abs(ob['value']))):
+                ctx.violation('impl-violation', {'spec': sp, 'observed': {'after renaming the nodes in place': q, 'before': [ob.get('solve'), ob.get('value')]},
+                                                 'expected': 'same optimum under the new labels'}, trigger={'what': 'renaming in place'})
         # ---- permutation of the asset list
         bad = {}
         if op.get('status') != 'ok':
